@@ -73,3 +73,33 @@ package postgres
 //@   ensures same-action-is-unchanged: from == to ==> !r
 //@   ensures unset-means-no-action: (from == "" && to == schema.NoAction) || (from == schema.NoAction && to == "") ==> !r
 //@   ensures explicit-actions-compared-exactly: from != "" && to != "" ==> r == (from != to)
+
+// The PostgreSQL column comparator returns what the generic walker assumes of a driver - nil or
+// a ModifyColumn of exactly the two columns - sets the Null flag exactly when nullability
+// differs and no flag outside the six it computes.  The comparators it combines are trusted
+// here (deterministic, write nothing); their type/default logic is not under contract.
+
+//@ import "ariga.io/atlas/sql/internal/sqlx"
+
+//@ func (d *diff) typeChanged(from, to *schema.Column) (changed bool, err error)
+//@   trusted
+//@   pure
+//@ func (d *diff) defaultChanged(from, to *schema.Column) (changed bool, err error)
+//@   trusted
+//@   pure
+//@ func (d *diff) generatedChanged(from, to *schema.Column) (changed bool, err error)
+//@   trusted
+//@   pure
+//@ func identityChanged(from, to []schema.Attr) (changed bool)
+//@   trusted
+//@   pure
+
+//@ func (d *diff) ColumnChange(fromT *schema.Table, from, to *schema.Column, o *schema.DiffOptions) (r schema.Change, err error)
+//@   requires d != nil && from != nil && to != nil && from.Type != nil && to.Type != nil && sqlx.NoChange == nil
+//@   modifies struct(schema.GeneratedExpr)
+//@   ensures nil-or-a-modification-of-the-two-columns: err == nil && r != nil ==> GvcIs[*schema.ModifyColumn](r) && r.(*schema.ModifyColumn) != nil &&
+//@           r.(*schema.ModifyColumn).From == from && r.(*schema.ModifyColumn).To == to && r.(*schema.ModifyColumn).Change != schema.NoChange
+//@   ensures null-flag-iff-nullability-differs: err == nil && r != nil ==> (r.(*schema.ModifyColumn).Change&schema.ChangeNull != 0) == (from.Type.Null != to.Type.Null)
+//@   ensures nullability-change-is-reported: err == nil && from.Type.Null != to.Type.Null ==> r != nil
+//@   ensures no-flag-outside-the-computed-ones: err == nil && r != nil ==> r.(*schema.ModifyColumn).Change&^(schema.ChangeComment|schema.ChangeNull|schema.ChangeType|schema.ChangeDefault|schema.ChangeAttr|schema.ChangeGenerated) == 0
+//@   ensures an-error-reports-no-change: err != nil ==> r == nil
